@@ -284,6 +284,9 @@ class Ctx:
                                 "observed": observed, "how": how, "spec": spec})
         return True
 
+    def has_unlisted_violations(self):
+        return bool(self.violations)
+
     # ---------------------------------------------------------------- finish
     def finish(self):
         wall = time.time() - self.t0
